@@ -77,6 +77,7 @@ def check_case(W: World, case: dict) -> list:
     def bad(clause, detail, sub):
         out.append((clause, detail, {"m": "pattern", "h": h, "root": case["root"], **sub}))
 
+    twin_objs = W.build(h) if case.get("pats") else None
     pats = case.get("pats", [])
     texts = [render(pc["p"], W.pre, ["", " ", "  \n "][j % 3]) for j, pc in enumerate(pats)]
     PT._MATCHER_CACHE.clear()
@@ -104,6 +105,8 @@ def check_case(W: World, case: dict) -> list:
                 continue
             if phase == "multi":
                 mm = PT.MultiPatternMatcher([("other", "(" + W.pre + "Two)"), ("r", text)])
+                if twin_objs is not None:
+                    mm.match(twin_objs[case["root"]], ["r"])
                 res = mm.match(node, ["r"])
                 ok, caps = (res is not None), (dict(res[1]) if res else {})
             else:
@@ -119,6 +122,7 @@ def check_case(W: World, case: dict) -> list:
                 why = caps_match(W, S, objs, caps, exp["caps"])
                 if why:
                     bad("captures", f"{text!r} ({phase}): {why}", sub)
+    twins = None
     for mc in case.get("multi", []):
         defs = [(f"r{j + 1}", render(r, W.pre)) for j, r in enumerate(mc["rules"])]
         try:
@@ -126,6 +130,11 @@ def check_case(W: World, case: dict) -> list:
         except Exception as ex:
             bad("multi-compile", f"{defs}: {ex}", {"multi": [mc]})
             continue
+        # one matcher instance, several nodes: first a content-equal twin built separately, then the node itself --
+        # results must not depend on earlier matches
+        if twins is None:
+            twins = W.build(h)
+        mm.match(twins[case["root"]])
         res = mm.match(node)
         rule = 0 if res is None else int(res[0][1:])
         if rule != mc["res"]["rule"]:
